@@ -221,10 +221,12 @@ class _Beta(ast.NodeTransformer):
 
 # ---------------------------------------------------------------------------------------------- the normaliser
 class Normaliser:
-    def __init__(self, world: World):
+    def __init__(self, world: World, functions_only: bool = False):
         self.world = world
-        self.table = ClassTable(world)
+        self.functions_only = functions_only
+        self.table = None if functions_only else ClassTable(world)
         self.known = load_known()
+        self.known_method_names = {q.rsplit('.', 1)[-1] for q in self.known['functions']}
         self.counter = 0
         self.failed: set[int] = set()
         self.log: list[str] = []
@@ -247,6 +249,14 @@ class Normaliser:
         if not self.anything_unknown():
             changed = sum(canonical_idioms(tree) for tree in trees.values())
             return world_from_trees(world, trees) if changed else world
+        if self.functions_only:
+            # phase A: calls of unknown module-level functions, everywhere (class decorators included): needs no class table
+            self.contexts = {}
+            for name, tree in trees.items():
+                self._inline_module(tree, name)
+            out = world_from_trees(world, trees)
+            out.normalised = False  # type: ignore[attr-defined]
+            return out
         # cloned class bodies, by qualified class name
         cls_nodes: dict[str, ast.ClassDef] = {}
         for name, tree in trees.items():
@@ -265,9 +275,47 @@ class Normaliser:
         self._specialise(cls_nodes)
         for name, tree in trees.items():
             self._inline_module(tree, name)
+        self._drop_orphans(trees)
         for tree in trees.values():
             canonical_idioms(tree)
         return world_from_trees(world, trees)
+
+    def _drop_orphans(self, trees: dict[str, ast.Module]) -> None:
+        """Definitions the rules do not know and that nothing refers to any more (every call was inlined) are removed:
+        rules that enumerate functions would otherwise meet the same code twice, once out of context."""
+        for _ in range(3):
+            used_names: set[str] = set()
+            used_attrs: set[str] = set()
+            for tree in trees.values():
+                for n in ast.walk(tree):
+                    if isinstance(n, ast.Name):
+                        used_names.add(n.id)
+                    elif isinstance(n, ast.Attribute):
+                        used_attrs.add(n.attr)
+                    elif isinstance(n, ast.Constant) and isinstance(n.value, str) and n.value.isidentifier():
+                        used_attrs.add(n.value)  # getattr(x, 'name')
+                        used_names.add(n.value)
+            removed = 0
+            for modname, tree in trees.items():
+                keep = []
+                for node in tree.body:
+                    if isinstance(node, ast.FunctionDef) and self.func_unknown(f'{modname}.{node.name}') and node.name not in used_names and node.name not in used_attrs and not node.decorator_list:
+                        removed += 1
+                        continue
+                    keep.append(node)
+                    if isinstance(node, ast.ClassDef):
+                        body = []
+                        for sub in node.body:
+                            if (isinstance(sub, ast.FunctionDef) and self.func_unknown(f'{getattr(sub, "_omod", modname)}.{node.name}.{sub.name}') and self.func_unknown(f'{modname}.{node.name}.{sub.name}')
+                                    and sub.name not in self.known_method_names and sub.name not in used_attrs and sub.name not in used_names and not sub.name.startswith('__')
+                                    and not any(isinstance(d, ast.Name) and d.id in ('property', 'abstractmethod') or isinstance(d, ast.Attribute) for d in sub.decorator_list)):
+                                removed += 1
+                                continue
+                            body.append(sub)
+                        node.body = body or [ast.Pass(lineno=node.lineno, col_offset=0)]
+                tree.body = keep
+            if not removed:
+                break
 
     # -------------------------------------------------------------- 1. methods of unknown classes
     def _known_strict_ancestors(self, c: ClassInfo) -> list[ClassInfo]:
@@ -347,7 +395,10 @@ class Normaliser:
                     defs = {id(table.resolve(d, h).node) for d in subs if table.resolve(d, h) is not None} | ({id(rb.node)} if rb is not None else set())
                     if len(defs) < 2:
                         continue
-                    # is the hook unknown to the rules?
+                    # is the hook unknown to the rules?  (a method *name* they have never seen: a known name defined in
+                    # a new place is handled by the copy-down of step 1)
+                    if h in self.known_method_names:
+                        continue
                     owners = [table.resolve(d, h) for d in subs + [b]]
                     if not any(r is not None and r.owner is not None and isinstance(r.node, ast.FunctionDef) and r.provenance == 'own' and self.func_unknown(f'{r.owner.qual}.{r.node.name}') for r in owners):
                         continue
@@ -518,6 +569,8 @@ class Normaliser:
                 return node, node._module.name, None, 'function'
             return None
         if isinstance(f, ast.Attribute):
+            if table is None:
+                return None
             recv = f.value
             target_cls = None
             bound = None
@@ -653,7 +706,7 @@ class Normaliser:
 
     # -------------------------------------------------------------- bound-method references
     def _method_reference(self, st: ast.stmt, ref: ast.Attribute, fn: ast.FunctionDef, cls: ClassInfo | None, me: str | None):
-        if cls is None or me is None or not (isinstance(ref.value, ast.Name) and ref.value.id == me):
+        if cls is None or me is None or self.table is None or not (isinstance(ref.value, ast.Name) and ref.value.id == me):
             return None
         # must not be the function of a call (that is handled as a call)
         for n in ast.walk(st):
@@ -793,6 +846,56 @@ def canonical_idioms(tree: ast.AST) -> int:
             block = getattr(node, field, None)
             if isinstance(block, list) and block and isinstance(block[0], ast.stmt):
                 n += _loops_to_comprehensions(block)
+                if not isinstance(node, (ast.ClassDef, ast.Module)):
+                    n += _defs_to_lambdas(block)
+    return n
+
+
+def _defs_to_lambdas(block: list[ast.stmt]) -> int:
+    """`def f(a): return e` used exactly once, as a value, later in the same block  ->  `lambda a: e` at the use."""
+    n = 0
+    i = 0
+    while i < len(block):
+        st = block[i]
+        i += 1
+        if not isinstance(st, ast.FunctionDef) or st.decorator_list or st.args.defaults or st.args.kw_defaults or st.args.vararg or st.args.kwarg or st.args.kwonlyargs:
+            continue
+        body = _docless(st.body)
+        if len(body) != 1 or not isinstance(body[0], ast.Return) or body[0].value is None:
+            continue
+        rest = block[i:]
+        uses = [x for s in rest for x in ast.walk(s) if isinstance(x, ast.Name) and x.id == st.name]
+        if len(uses) != 1 or not isinstance(uses[0].ctx, ast.Load):
+            continue
+        if any(isinstance(x, ast.Name) and x.id == st.name for x in ast.walk(st)):
+            continue  # recursive
+        use = uses[0]
+        # the use must not sit inside a loop or nested scope that re-evaluates after a rebinding; same block suffices here
+        args = ast.arguments(posonlyargs=[], args=[ast.arg(arg=a.arg) for a in st.args.posonlyargs + st.args.args], kwonlyargs=[], kw_defaults=[], defaults=[])
+        lam = ast.Lambda(args=args, body=body[0].value)
+        omod = getattr(st, '_omod', '')
+        for x in ast.walk(lam):
+            if not hasattr(x, 'lineno') and isinstance(x, (ast.expr, ast.arg)):
+                x.lineno, x.col_offset = st.lineno, st.col_offset
+                x.end_lineno, x.end_col_offset = getattr(st, 'end_lineno', st.lineno), 0
+            if not getattr(x, '_omod', None):
+                x._omod = omod  # type: ignore[attr-defined]
+        replaced = False
+        for s in rest:
+            for parent in ast.walk(s):
+                for f, v in ast.iter_fields(parent):
+                    if v is use:
+                        setattr(parent, f, lam)
+                        replaced = True
+                    elif isinstance(v, list):
+                        for k, y in enumerate(v):
+                            if y is use:
+                                v[k] = lam
+                                replaced = True
+        if replaced:
+            block.remove(st)
+            i -= 1
+            n += 1
     return n
 
 
@@ -851,7 +954,8 @@ def normalise(world: World) -> World:
     cached = getattr(world, '_normal_form', None)
     if cached is not None:
         return cached
-    n = Normaliser(world)
+    first = Normaliser(world, functions_only=True).run()
+    n = Normaliser(first)
     out = n.run()
     if out is not world:
         out.normalise_log = n.log  # type: ignore[attr-defined]
